@@ -183,7 +183,12 @@ Definition lstep (l : lstate) : lstate :=
           | None => do_throw l key_error c
           end
       | OEmit v => set_code (emit l (EvEmit v)) c
-      | OWork k n => set_code (emit l (EvWork k n)) c
+      | OWork k n =>
+          (* kind 4 = n times `try { get(t, missing) } catch (e in KeyError) { }`: the record is left
+             as the last caught KeyError leaves it *)
+          let l1 := if (k =? 4) && (1 <=? n)
+                    then set_exc l (mkE (depth (exc l)) (negb clear_on_catch) (Some key_error)) else l in
+          set_code (emit l1 (EvWork k n)) c
       | OObs => set_code (emit l (EvObs (depth (exc l)) (active (exc l)) (length (tls l)) (length (roots l)))) c
       | OYield => set_code l c
       | OThrow e => do_throw l e c
